@@ -881,9 +881,18 @@ def run(ctx):
     if ok:
         ctx.check_props('Props/C23.v')
     ctx.build(['Model/ShapeCheck.vo', 'Model/Ir2WasmOps.vo', 'Lib/Val.vo'])
+    import time
+    t0 = time.time()
     known = stage_shapes(ctx)
+    t1 = time.time()
     if rows:
         stage_ops(ctx, rows, crows)
+    t2 = time.time()
     stage_data(ctx)
+    t3 = time.time()
     stage_e2e(ctx, known)
+    t4 = time.time()
+    ctx.cov['stages']['wall_s'] = {'shapes': round(t1 - t0, 1), 'ops': round(t2 - t1, 1), 'data': round(t3 - t2, 1),
+                                   'e2e': round(t4 - t3, 1)}
+    ctx.log('stage wall times', ctx.cov['stages']['wall_s'])
     ctx.cov['exhaustive'] = False
